@@ -43,7 +43,7 @@ def oracle(gene, cov, cn_sol, alleles, prof, result, max_points=30000):
     """independent spec-level evaluation; returns (reasons, stats)"""
     from aldy.gene import Mutation
     why = []
-    func = sorted(Mutation(*m) for m in gene.mutations if gene.is_functional(m) and cov[Mutation(*m)] > 0)
+    func = sorted(Mutation(*m) for m in gene.mutations if gene.is_functional(m) and cov[Mutation(*m)] > 0)   # `cov` here is the filtered evidence the stage solved on
     by_cfg = collections.defaultdict(list)
     for an, a in alleles.items():
         by_cfg[a.cn_config].append(an)
@@ -58,11 +58,24 @@ def oracle(gene, cov, cn_sol, alleles, prof, result, max_points=30000):
     if npts > max_points:
         return None, {"points": npts}
 
+    # depth and support straight from the tables (not through the accessors under test)
+    def raw_support(m):
+        ind = getattr(cov, "_indels", None)
+        if ind and (m.pos, m.op) in ind:
+            return ind[m.pos, m.op][1]
+        return len(cov._coverage.get(m.pos, {}).get(m.op, []))
+
+    def raw_total(m):
+        ind = getattr(cov, "_indels", None)
+        if ind and (m.pos, m.op) in ind:
+            return sum(ind[m.pos, m.op])
+        return sum(len(v) for o, v in cov._coverage.get(m.pos, {}).items() if o[:3] != "ins")
+
     def obs(m):
-        if cov.single_copy(m.pos, cn_sol) == 0:
+        if cn_sol.position_cn(m.pos) == 0:
             return Fraction(0)
-        sc = Fraction(max(1, cov.total(m))) / Fraction(cn_sol.position_cn(m.pos))
-        return Fraction(cov[m]) / sc
+        sc = Fraction(max(1, raw_total(m))) / Fraction(cn_sol.position_cn(m.pos))
+        return Fraction(raw_support(m)) / sc
 
     positions = sorted({m.pos for m in func})
     obs_m = {m: obs(m) for m in func}
